@@ -145,7 +145,7 @@ class LoadTemplate(LVC):
     timeout_quick = 20000
 
     def __init__(self, kind):
-        self.kind = kind  # 'none' | 'lru' | 'dict'
+        self.ckind = kind  # 'none' | 'lru' | 'dict'
         super().__init__("C25", f"C25.load[cache={kind}]")
 
     def configure(self, I):
@@ -174,8 +174,8 @@ class LoadTemplate(LVC):
 
         I.specs[("fn", id(weakref.ref))] = weakref_ref
         I.specs["Environment.make_globals"] = A.abstract_fn("make_globals", result=lambda st, args, kwargs: Sym(mk_globals(to_term(args[1], "obj")), "obj"))
-        if self.kind != "none":
-            self.cache = CacheModel(self.kind)
+        if self.ckind != "none":
+            self.cache = CacheModel(self.ckind)
             self.cache.install(I)
 
     def setup(self, I, st):
@@ -185,10 +185,10 @@ class LoadTemplate(LVC):
         self.tname = sym("name", "obj")
         self.globals = sym("globals", "obj")
         self.auto_reload = sym("auto_reload", "bool")
-        cache_ref = self.cache.alloc(st) if self.kind != "none" else None
+        cache_ref = self.cache.alloc(st) if self.ckind != "none" else None
         self.env = A.obj(st, jinja2.Environment, "self", fields={"loader": self.loader, "cache": cache_ref, "auto_reload": self.auto_reload})
         self.key = pair(wr(self.loader.t), self.tname.t)
-        if self.kind != "none":
+        if self.ckind != "none":
             # what is stored is a template, never None (instantiated at the key; other keys are never looked up)
             st.assume(z3.Implies(z3.Select(self.cache.dom0, self.key), z3.Select(self.cache.val0, self.key) != NONE))
         return [self.env, self.tname, self.globals], {}
@@ -246,7 +246,7 @@ class LoadTemplate(LVC):
             return None
         loads = A.calls(out, "load")
         gets, sets = A.calls(out, "cache.get"), A.calls(out, "cache.__setitem__")
-        if self.kind == "none":
+        if self.ckind == "none":
             if len(loads) != 1:
                 return False
             return self.load_call_ok(loads[0])
@@ -274,10 +274,10 @@ class LoadTemplate(LVC):
         if isinstance(ev.result, Exc):
             if not (out.raised and out.value is ev.result):
                 return False
-            return True if self.kind == "none" else (self.cache_unchanged(out) and not A.calls(out, "cache.__setitem__"))
+            return True if self.ckind == "none" else (self.cache_unchanged(out) and not A.calls(out, "cache.__setitem__"))
         if not (out.returned and out.value is ev.result):
             return False
-        if self.kind == "none":
+        if self.ckind == "none":
             return True
         sets = A.calls(out, "cache.__setitem__")
         if len(sets) != 1 or sets[0].args[2] is not ev.result:
@@ -286,14 +286,14 @@ class LoadTemplate(LVC):
         k = z3.Const(fresh_name("k"), Obj)
         res = to_term(ev.result, "obj")
         others = z3.ForAll([k], z3.Implies(k != self.key, z3.And(
-            (z3.Select(d, k) == z3.Select(self.cache.dom0, k)) if self.kind == "dict" else z3.Implies(z3.Select(d, k), z3.Select(self.cache.dom0, k)),
+            (z3.Select(d, k) == z3.Select(self.cache.dom0, k)) if self.ckind == "dict" else z3.Implies(z3.Select(d, k), z3.Select(self.cache.dom0, k)),
             z3.Select(v, k) == z3.Select(self.cache.val0, k))))
         return z3.And(z3.Select(d, self.key), z3.Select(v, self.key) == res, others)
 
     def p_reload_check(self, pre, out):
         """is_up_to_date is consulted only for the stored template and only when auto_reload is on;
         new globals are merged into a cached template, never into the environment"""
-        if self.kind == "none":
+        if self.ckind == "none":
             return not A.calls(out, "Template.is_up_to_date") and not A.calls(out, "globals.update")
         conj = []
         tpl = z3.Select(self.cache.val0, self.key)
@@ -312,11 +312,11 @@ class LoadTemplate(LVC):
              ("loaded_template_stored", p_store), ("reload_check_and_globals", p_reload_check)]
 
     def concretize(self, model, pre, out):
-        w = {"op": "load", "cache": self.kind, "auto_reload": bool(model_value(model, self.auto_reload.t)),
+        w = {"op": "load", "cache": self.ckind, "auto_reload": bool(model_value(model, self.auto_reload.t)),
              "loader_none": model_value(model, self.loader.t == NONE) is True,
              "load_outcome": model_value(model, self.oc(self.loader.t, self.tname.t)),
              "globals_truthy": model_value(model, jinja2_truthy(self.globals.t)) is True}
-        if self.kind != "none":
+        if self.ckind != "none":
             w["stored"] = model_value(model, z3.Select(self.cache.dom0, self.key)) is True
             w["uptodate"] = model_value(model, utd(z3.Select(self.cache.val0, self.key))) is True
         return w
@@ -349,7 +349,7 @@ def replay_load_one(w):
     out = w.get("load_outcome")
     loader = None if w.get("loader_none") else FakeLoader("L", out if out in (0, 1, 3) else OUT_OTHER)
     other = FakeLoader("other", OUT_RETURN)
-    env = jinja2.Environment(loader=loader, cache_size={"none": 0, "lru": 4, "dict": -1}[kind], auto_reload=bool(w.get("auto_reload")))
+    env = jinja2.Environment(loader=loader, cache_size={"none": 0, "lru": 16, "dict": -1}[kind], auto_reload=bool(w.get("auto_reload")))
     g = {"g": 1} if w.get("globals_truthy") else {}
     stored = FakeTemplate("stored", bool(w.get("uptodate")))
     decoys = {}
@@ -470,7 +470,7 @@ class CopyCache(VC):
     target = "jinja2.environment:copy_cache"
 
     def __init__(self, kind):
-        self.kind = kind
+        self.ckind = kind
         super().__init__("C25", f"C25.copy_cache[{kind}]")
 
     def configure(self, I):
@@ -480,9 +480,9 @@ class CopyCache(VC):
     def setup(self, I, st):
         self.cap = sym("capacity", "int")
         st.assume(self.cap.t >= 1)
-        if self.kind == "none":
+        if self.ckind == "none":
             self.cache = None
-        elif self.kind == "dict":
+        elif self.ckind == "dict":
             self.cache = A.adict(st, "cache", "obj", "obj")
         else:
             q = st.alloc(HList(arr=z3.Const("q", OArr), n=z3.Int("qn"), k="obj", tag="deque"), initial=True)
@@ -495,9 +495,9 @@ class CopyCache(VC):
         if out.raised or unexpected(out) or any(i not in out.st.allocated for i, _ in out.st.written):
             return False
         v = out.value
-        if self.kind == "none":
+        if self.ckind == "none":
             return v is None
-        if self.kind == "dict":
+        if self.ckind == "dict":
             return is_empty_dict(out.st, v) and v != self.cache
         if v == self.cache:
             return False
@@ -506,7 +506,7 @@ class CopyCache(VC):
     posts = [("empty_copy_of_same_kind", p_copy)]
 
     def concretize(self, model, pre, out):
-        return {"op": "copy_cache", "kind": self.kind, "capacity": model_value(model, self.cap.t)}
+        return {"op": "copy_cache", "kind": self.ckind, "capacity": model_value(model, self.cap.t)}
 
     def replay(self, w):
         return replay_caches(w)
@@ -1444,16 +1444,18 @@ def replay_dispatch(w):
             if o == OUT_OTHER:
                 want = ("raise", "OtherError")
                 break
+        single = how == "get" or (how == "gos" and len(names) == 1)
+        if single and names[0] is not T:
+            # one name: the outcome of _load_template is the outcome
+            o = env.outcomes[want_seen[0][0]]
+            want = ("ok", ("loaded", want_seen[0][0])) if o == OUT_RETURN else ("raise", {OUT_TNF: "TemplateNotFound", OUT_TNFS: "TemplatesNotFound",
+                                                                                          OUT_UNDEF: "UndefinedError", OUT_OTHER: "OtherError"}[o])
         if how == "get":
-            if want == ("raise", "TemplatesNotFound"):
-                want = ("raise", "TemplateNotFound")
             got = run_native(lambda: env.get_template(names[0], parent, g))
         elif how == "select":
             got = run_native(lambda: env.select_template(names, parent, g))
         else:
             got = run_native(lambda: env.get_or_select_template(names if len(names) != 1 else names[0], parent, g))
-            if len(names) == 1 and want == ("raise", "TemplatesNotFound"):
-                want = ("raise", "TemplateNotFound")
         if got[:2] != want or env.seen != want_seen:
             return f"{how}({items!r}, parent={parent!r}): real={got[:2]!r} loads={env.seen!r}; spec={want!r} loads={want_seen!r}"
         return None
@@ -1462,7 +1464,7 @@ def replay_dispatch(w):
     family += [list(p) for k in (1, 2, 3) for p in itertools.product(["T", 0, 1, 2, 3, 4], repeat=k) if k < 3 or p[0] in (1, 4)]
     for items in family:
         for parent in (None, "P"):
-            for how in ("select", "gos") + (("get",) if len(items) == 1 and items[0] not in (2, 4) else ()):
+            for how in ("select", "gos") + (("get",) if len(items) == 1 else ()):
                 if not items:
                     continue
                 r = run(items, parent, how)
@@ -1575,7 +1577,7 @@ def run_history(kind, cap, auto, ops, tmp=None):
         if got != want:
             return f"step {step} {op}({arg!r}): real={got!r} reference={want!r}"
         if cap != 0:
-            keys = [k[1] for k in (env.cache.keys() if cap < 0 else reversed(list(env.cache.keys())))]
+            keys = [k[1] if isinstance(k, tuple) and len(k) == 2 else repr(k) for k in (env.cache.keys() if cap < 0 else reversed(list(env.cache.keys())))]
             if sorted(keys) != sorted(ref.order) or (cap > 0 and (len(keys) > cap or keys != ref.order)):
                 return f"step {step} {op}({arg!r}): cache holds {keys!r}, reference {ref.order!r} (capacity {cap})"
         elif env.cache is not None:
@@ -1587,7 +1589,7 @@ def bounded_histories(task, tier, seed):
     import shutil
     import tempfile
     t0 = time.time()
-    depth = 4 if tier == "quick" else 6
+    depth = 4 if tier == "quick" else 5
     n, rs = 0, []
     tmp = tempfile.mkdtemp(prefix="c25hist")
     try:
@@ -1627,7 +1629,7 @@ def replay_history(w):
     return (bool(r), r or "history agrees with the reference model")
 
 
-HIST_BOUND = ("all histories of length <= 4 (thorough 6; FileSystemLoader one less) ending in a lookup over 2 names with get / select([a,b]) / "
+HIST_BOUND = ("all histories of length <= 4 (thorough 5; FileSystemLoader one less) ending in a lookup over 2 names with get / select([a,b]) / "
               "select([b,a]) / modify / delete, cache sizes 0, 1, 2, unbounded, auto_reload on/off, on DictLoader, FunctionLoader (with and "
               "without check) and FileSystemLoader (real files, forced mtime changes); rendered output and cache keys vs the reference model")
 
